@@ -31,7 +31,7 @@ META = {
 
 
 def tasks(tier):
-    ts = [axis_task(s) for s in SIDES]
+    ts = [axis_task(s) for s in SIDES] + [axis_task(s, True) for s in SIDES]
     for c in model.CLASSES:
         for dt in ("real", "complex"):
             ts.append(classes.place_task(c, dt))
